@@ -8,9 +8,13 @@
   `GC_Unmark` from the bits an `xraise` left) + `sweep` + `release`; `xraise` is `GOp.raise` (a prefix of `markEvents`); `xbox` builds a Box
   outside its ownership contract; `newraw` an unregistered container; kind `W` is a Thread object other than `current(Thread)` (`.thr`: its
   table is traced like that of every Thread object, `Cfg.foreignTls`); the 8-slot probe is `ProbeD` (its destructor calls `del(NULL)`: `owns = [0]`).
+  Element type X is `ProbeE` (an embedded element holding one plain pointer); `xin k words | op` runs `op` on the statement machine of
+  Cello/HeapMid.lean (the statement lists of the current source), takes the k-th view that is a ProbeE destructor / Assign call, and collects on the
+  heap in which the container is that intermediate state (words ++ the container ++ the operand as root words); `cin` is the full-mode form.
 -/
 import Cello.Heap
 import Cello.HeapRec
+import Cello.HeapMid
 import Std.Data.HashMap
 import Std.Data.HashSet
 
@@ -56,16 +60,19 @@ def Kind.isSeq : Kind → Bool | .A | .L | .H => true | _ => false
 def Kind.isArr : Kind → Bool | .A | .L => true | _ => false
 def Kind.isMap : Kind → Bool | .T | .E => true | _ => false
 
-/-- the element / key / value types the histories use: Ref (reference-bearing), Int, String, Float (leaf types) -/
+/-- the element / key / value types the histories use: Ref (reference-bearing), Int, String, Float (leaf types), and X = `ProbeE`, the
+    harness's embedded element type whose destructor / Assign instance can run a collection (one plain pointer, conservatively scanned;
+    element / value type only) -/
 inductive Ety where
-  | R | I | S | F
+  | R | I | S | F | X
 deriving Repr, Inhabited, DecidableEq
 
 def Ety.name : Ety → String
-  | .R => "Ref" | .I => "Int" | .S => "String" | .F => "Float"
+  | .R => "Ref" | .I => "Int" | .S => "String" | .F => "Float" | .X => "ProbeE"
 
 def parseEty (c : Char) : Option Ety :=
-  if c = 'R' then some .R else if c = 'I' then some .I else if c = 'S' then some .S else if c = 'F' then some .F else none
+  if c = 'R' then some .R else if c = 'I' then some .I else if c = 'S' then some .S else if c = 'F' then some .F
+  else if c = 'X' then some .X else none
 
 structure MObj where
   kind : Kind
@@ -123,7 +130,7 @@ def refObj (t : Tok) : Obj := .raw "Ref" [tokWord t]
     integer (an integer that equals an address is NOT a reference: Int is a leaf type), String / Float hold no word of interest -/
 def valWords (e : Ety) (t : Tok) : List Word :=
   match e with
-  | .R | .I => [tokWord t]
+  | .R | .I | .X => [tokWord t]
   | _ => [0]
 
 def keyWords (e : Ety) (k : Int) : List Word :=
@@ -257,7 +264,7 @@ def parseTypes (kind : Kind) (kt vt : Ety) (arg : String) : Option (Ety × Ety) 
   else if kind.isArr ∧ arg.length = 1 then (parseEty arg.front).map (kt, ·)
   else if kind.isMap ∧ arg.length = 2 then
     match parseEty arg.front, parseEty arg.back with
-    | some k, some v => if k = .F then none else some (k, v)
+    | some k, some v => if k = .F ∨ k = .X then none else some (k, v)
     | _, _ => none
   else none
 
@@ -392,6 +399,210 @@ def MState.del (st : MState) (id : Nat) : Nat → MState × Nat
       match o.kind, o.el[0]? with
       | .B, some (Tok.obj t) => if st1.usable t then let (s2, n) := st1.del t fuel; (s2, n + 1) else (st1, 1)
       | _, _ => (st1, 1)
+
+/-! ### a collection INSIDE a container operation (`xin` / `cin`): the intermediate states of `Cello.Heap.Mid` -/
+
+inductive InnerOp where
+  | pop | arem | aset | push | ins | tset | trem | clear | trunc | assign | concat
+deriving Repr, DecidableEq, Inhabited
+
+structure Inner where
+  op : InnerOp
+  id : Nat
+  a : Int := 0               -- index / key / new length
+  t : Tok := .nil
+  hasT : Bool := false
+  src : Option Nat := none
+deriving Repr, Inhabited
+
+/-- the op after `|` of an `xin` / `cin` line, or a plain `arem` / `concat` line: accepted exactly when the harness accepts it -/
+def MState.innerParse (st : MState) (w : List String) : Option Inner :=
+  match w with
+  | name :: ids :: rest =>
+    match (parseLong ids).bind natOf with
+    | none => none
+    | some id =>
+      match st.objs[id]? with
+      | none => none
+      | some o =>
+        if !(o.kind.isArr || o.kind.isMap) || o.raw || st.owned id then none else
+        let tokArg (s : String) : Option Tok :=
+          match parseTok s with
+          | some t => if st.tokOk t && t.isObjOrNil then some t else none
+          | none => none
+        match name, rest with
+        | "pop", [idxs] =>
+          (match parseLong idxs with
+           | some idx => if o.kind.isArr && 0 ≤ idx && idx < (o.el.size : Int) then some { op := .pop, id, a := idx } else none
+           | none => none)
+        | "arem", [idxs] =>
+          (match parseLong idxs with
+           | some idx =>
+             if o.kind.isArr && 0 ≤ idx && idx < (o.el.size : Int) && o.vt == .X then
+               let first := (o.el.findIdx? (· == o.el[idx.toNat]!)).getD idx.toNat
+               some { op := .arem, id, a := (first : Int) }
+             else none
+           | none => none)
+        | "aset", [idxs, toks] =>
+          (match parseLong idxs, tokArg toks with
+           | some idx, some t => if o.kind.isArr && 0 ≤ idx && idx < (o.el.size : Int) then some { op := .aset, id, a := idx, t, hasT := true } else none
+           | _, _ => none)
+        | "ins", [idxs, toks] =>
+          -- push_at(self, x, idx): Array 0..n; List 0..n-1 (`List_At(l, n)` is out of bounds), or 0 on an empty List
+          (match parseLong idxs, tokArg toks with
+           | some idx, some t =>
+             if o.kind.isArr && 0 ≤ idx && idx ≤ (o.el.size : Int) && !(o.kind == .L && idx == (o.el.size : Int) && idx != 0)
+             then some { op := .ins, id, a := idx, t, hasT := true } else none
+           | _, _ => none)
+        | "push", [toks] =>
+          (match tokArg toks with
+           | some t => if o.kind.isArr then some { op := .push, id, t, hasT := true } else none
+           | none => none)
+        | "tset", [keys, toks] =>
+          (match parseLong keys, tokArg toks with
+           | some key, some t => if o.kind.isMap && !o.refKeys then some { op := .tset, id, a := key, t, hasT := true } else none
+           | _, _ => none)
+        | "trem", [keys] =>
+          (match parseLong keys with
+           | some key => if o.kind.isMap && !o.refKeys && (o.mapFind key).isSome then some { op := .trem, id, a := key } else none
+           | none => none)
+        | "clear", [] => some { op := .clear, id }
+        | "trunc", [ns] =>
+          (match parseLong ns with
+           | some n => if o.kind.isArr && 1 ≤ n && n ≤ (o.el.size : Int) then some { op := .trunc, id, a := n } else none
+           | none => none)
+        | nm, [ss] =>
+          if nm != "assign" && nm != "concat" then none else
+          (match (parseLong ss).bind natOf with
+           | some s =>
+             match st.objs[s]? with
+             | some os =>
+               if s = id || os.raw || st.owned s then none
+               else if nm = "assign" then
+                 (if (o.kind.isArr && os.kind.isArr) || (o.kind.isMap && os.kind.isMap && !o.refKeys && !os.refKeys)
+                  then some { op := .assign, id, src := some s } else none)
+               else (if o.kind.isArr && os.kind.isArr && o.vt == os.vt then some { op := .concat, id, src := some s } else none)
+             | none => none
+           | none => none)
+        | _, _ => none
+  | _ => none
+
+def MState.srcObj (st : MState) (q : Inner) : Option MObj := q.src.bind fun s => st.objs[s]?
+
+/-- the `ProbeE` calls the operation makes: destructor calls, then Assign calls (`set` of an existing key of a Table: the Assign first) -/
+def MState.innerCalls (st : MState) (q : Inner) (o : MObj) : Nat × Nat :=
+  let x : Bool := o.vt == .X
+  let n := o.el.size
+  let sx : Bool := match st.srcObj q with | some os => os.vt == .X | none => false
+  let m := match st.srcObj q with | some os => os.el.size | none => 0
+  match q.op with
+  | .pop | .arem | .trem => (if x then 1 else 0, 0)
+  | .aset | .push | .ins => (0, if x then 1 else 0)
+  | .tset => (if x && o.kind == .T && (o.mapFind q.a).isSome then 1 else 0, if x then 1 else 0)
+  | .clear => (if x then n else 0, 0)
+  | .trunc => (if x then n - q.a.toNat else 0, 0)
+  | .assign => (if x then n else 0, if sx then m else 0)
+  | .concat => (0, if sx then m else 0)
+
+/-- 1: the collection at call `k` is modelled; 0: known-finding territory (the Mark instance would present freed or unconstructed
+    cells: `View.ok` fails); -1: the order in which the source is iterated is not modelled -/
+def MState.innerSafe (st : MState) (q : Inner) (o : MObj) (k : Nat) : Int :=
+  let (nd, na) := st.innerCalls q o
+  if k ≥ nd + na || q.op == .tset then 1 else
+  let chained := o.kind == .L || o.kind == .E
+  if k < nd then (if (q.op == .clear || q.op == .assign) && chained && k != 0 then 0 else 1) else
+  let j := k - nd
+  if q.op == .assign || q.op == .concat then
+    if o.kind == .A then (if j + 1 == na then 1 else 0)
+    else if o.kind.isMap then
+      (match st.srcObj q with
+       | some os => if na == 1 || (os.kind == .E && os.kt == .I) then 1 else -1
+       | none => -1)
+    else 1
+  else 1
+
+def MObj.entries (o : MObj) : List (Int × Tok) :=
+  if o.kind.isMap then o.key.toList.zip o.el.toList else o.el.toList.map fun t => ((0 : Int), t)
+
+def MObj.withEntries (o : MObj) (es : List (Int × Tok)) : MObj :=
+  { o with el := (es.map (·.2)).toArray, key := if o.kind.isMap then (es.map (·.1)).toArray else #[] }
+
+/-- the container when the operation has completed (the interpreter's own semantics of the op: the harness's shadow) -/
+def MState.innerPost (st : MState) (q : Inner) (o : MObj) : MObj :=
+  match q.op with
+  | .pop | .arem => { o with el := o.el.eraseIdxIfInBounds q.a.toNat }
+  | .aset => { o with el := o.el.setIfInBounds q.a.toNat q.t }
+  | .push => { o with el := o.el.push q.t }
+  | .ins => { o with el := o.el.insertIdxIfInBounds q.a.toNat q.t }
+  | .tset =>
+    (match o.mapFind q.a with
+     | some i => { o with el := o.el.setIfInBounds i q.t }
+     | none => { o with el := o.el.push q.t, key := o.key.push q.a })
+  | .trem =>
+    (match o.mapFind q.a with
+     | some i =>
+       let last := o.el.size - 1
+       { o with el := (o.el.setIfInBounds i (o.el[last]!)).pop, key := (o.key.setIfInBounds i (o.key[last]!)).pop }
+     | none => o)
+  | .clear => { o with el := #[], key := #[] }
+  | .trunc => { o with el := o.el.extract 0 q.a.toNat }
+  | .assign => (match st.srcObj q with | some os => (st.assignObj o os).getD o | none => o)
+  | .concat => (match st.srcObj q with | some os => { o with el := o.el ++ os.el } | none => o)
+
+def midKind : Kind → Mid.Kind
+  | .A => .array | .L => .list | .T => .table | _ => .tree
+
+/-- the elements of the source in the order `X_Assign` / `X_Concat` reads them: `get(obj, i)` for a sequence, ascending keys for a Tree with
+    Int keys (any other map source: the interpreter's own order, which `innerSafe` never lets a collection depend on) -/
+def MObj.inOrder (os : MObj) : List (Int × Tok) :=
+  if os.kind == .E && os.kt == .I then (os.entries.toArray.qsort (fun a b => a.1 < b.1)).toList else os.entries
+
+/-- the operation on the machine of `Cello.Heap.Mid`, interpreting the statement lists of the current source -/
+def MState.innerRun (st : MState) (q : Inner) (o : MObj) : Mid.Mach (Int × Tok) :=
+  let es := o.entries
+  let k := midKind o.kind
+  let zero : Int × Tok := (0, Tok.nil)
+  let found := (o.mapFind q.a).getD es.length
+  let env : Mid.Env (Int × Tok) := { shape := k.shape, zero := zero }
+  match q.op with
+  | .pop => Mid.runOp k .popAt { env with i := q.a.toNat } es
+  | .arem => Mid.runOp k .remVal { env with i := q.a.toNat } es
+  | .aset => Mid.runOp k .set { env with i := q.a.toNat, src := [(0, q.t)] } es
+  | .push => Mid.runOp k .push { env with i := es.length, src := [(0, q.t)] } es
+  | .ins => Mid.runOp k .pushAt { env with i := q.a.toNat, src := [(0, q.t)] } es
+  | .tset => Mid.runOp k (if (o.mapFind q.a).isSome then .set else .setNew) { env with i := found, src := [(q.a, q.t)] } es
+  | .trem => Mid.runOp k .remKey { env with i := found } es
+  | .clear => Mid.runOp k .clear env es
+  | .trunc => Mid.runOp k .resize { env with m := q.a.toNat } es
+  | .assign =>
+    let src := match st.srcObj q with | some os => os.inOrder | none => []
+    Mid.runOp k .assign { env with i := es.length + src.length, src := src } es
+  | .concat =>
+    let src := match st.srcObj q with | some os => os.inOrder | none => []
+    Mid.runOp k .concat { env with i := es.length + src.length, src := src } es
+
+/-- which views are calls of `ProbeE` code: the destructor of an element the target held (its type before the operation), the Assign
+    instance of an element of the new type (the source's, for assign / concat) -/
+def MState.hookable (st : MState) (q : Inner) (o : MObj) (v : Mid.View (Int × Tok)) : Bool :=
+  let newVt := match q.op, st.srcObj q with
+    | .assign, some os => os.vt
+    | .concat, some os => os.vt
+    | _, _ => o.vt
+  match v.tag with
+  | .dtor => o.vt == .X
+  | .asg => newVt == .X
+  | _ => false
+
+def sameEntries (isMap : Bool) (a b : List (Int × Tok)) : Bool :=
+  if isMap then
+    let sa := (a.toArray.qsort (fun x y => x.1 < y.1)).toList
+    let sb := (b.toArray.qsort (fun x y => x.1 < y.1)).toList
+    sa == sb
+  else a == b
+
+/-- the words the caller's frame holds while the operation runs: the container, the operand -/
+def Inner.operandWords (q : Inner) : List Word :=
+  [addrOf q.id] ++ (if q.hasT then [tokWord q.t] else []) ++ (match q.src with | some s => [addrOf s] | none => [])
 
 def bad (st : MState) : MState × List String := (st, ["O bad-op"])
 
@@ -710,6 +921,74 @@ def MState.step (st : MState) (w : List String) : MState × List String :=
         (st', [s!"O new {id}"])
       | none => bad st
     | _, _, _ => bad st
+  | "xin" :: ks :: rest =>
+    -- exact mode: `xin <k> <tok>* | <op>`: the k-th ProbeE destructor / Assign call of the container operation runs an exact collection
+    if st.full || !st.stale.isEmpty || w.length < 4 then bad st else
+    let st := { st with started := true }
+    let toks := rest.takeWhile (· != "|")
+    let opw := (rest.dropWhile (· != "|")).drop 1
+    match (parseLong ks).bind natOf with
+    | none => bad st
+    | some k =>
+      if k > 100000 || toks.length == rest.length then bad st else
+      let ts := toks.map parseTok
+      if ts.any (fun t => match t with | some t => !st.tokOk t | none => true) then bad st else
+      match st.innerParse opw with
+      | none => bad st
+      | some q =>
+        match st.objs[q.id]? with
+        | none => bad st
+        | some o =>
+          let safe := st.innerSafe q o k
+          if safe < 0 then bad st else
+          let post := st.innerPost q o
+          let stPost := { st with objs := st.objs.insert q.id post }
+          if safe == 0 then (stPost, ["O xin ub"]) else
+          let r := st.innerRun q o
+          let views := r.views.filter (st.hookable q o)
+          let (nd, na) := st.innerCalls q o
+          let env : Mid.Env (Int × Tok) := { shape := (midKind o.kind).shape, zero := (0, Tok.nil) }
+          let midTxt := s!"R mid={if views.length == nd + na && !r.stuck && sameEntries o.kind.isMap (r.final env) post.entries then "agree" else "differ"}"
+          match views[k]? with
+          | none => (stPost, [s!"O xin calls={views.length} fired=0", midTxt])
+          | some v =>
+            if !v.ok then (stPost, ["O xin ub", midTxt]) else
+            -- the container as its Mark instance presents it inside that call; the fill phase of assign already carries the source's types
+            let typed : MObj := match v.tag, q.op, st.srcObj q with
+              | .asg, .assign, some os => { o with kt := os.kt, vt := os.vt }
+              | _, _, _ => o
+            let midObj := typed.withEntries v.elems
+            let words := ts.filterMap (·.map tokWord) ++ q.operandWords
+            let (st1, lines) := ({ st with objs := st.objs.insert q.id midObj }).exactCollect words "x"
+            ({ st1 with objs := st1.objs.insert q.id post }, lines ++ [s!"O xin calls={views.length} fired=1", midTxt])
+  | "cin" :: ks :: "|" :: opw =>
+    -- full mode: the k-th ProbeE call of the operation allocates until the threshold triggers the real GC_Mark / GC_Sweep
+    if !st.full then bad st else
+    match (parseLong ks).bind natOf with
+    | none => bad st
+    | some k =>
+      if k > 100000 then bad st else
+      match st.innerParse opw with
+      | none => bad st
+      | some q =>
+        match st.objs[q.id]? with
+        | none => bad st
+        | some o =>
+          let safe := st.innerSafe q o k
+          if safe < 0 then bad st else
+          let (nd, na) := st.innerCalls q o
+          let post := st.innerPost q o
+          let (st', live) := ({ st with objs := st.objs.insert q.id post }).checkpoint
+          if safe == 0 then (st', [s!"O cin ub live={setText live}"])
+          else ({ st' with nCollect := st.nCollect + (if k < nd + na then 1 else 0) },
+                [s!"O cin calls={nd + na} fired={if k < nd + na then 1 else 0} live={setText live}"])
+  | "arem" :: _ | "concat" :: _ | "ins" :: _ =>
+    match st.innerParse w with
+    | none => bad st
+    | some q =>
+      match st.objs[q.id]? with
+      | none => bad st
+      | some o => ({ st with objs := st.objs.insert q.id (st.innerPost q o) }, ["O ok"])
   | ["collect"] =>
     if !st.full then bad st else
     let (st', live) := st.checkpoint
